@@ -927,6 +927,8 @@ class _Calls:
         for s, (v,) in self.args1(node, st, 1):
             if v.ty.kind == 'seq':
                 out.append((s, v))
+            elif v.ty.kind == 'items':
+                out.append((s, v))        # tuple(d.items()): the (key, value) pairs of that mapping; kept as the mapping itself
             else:
                 sq, et = self.seqterm(s, v, node)
                 out.append((s, V(SEQ(et), sq)))
